@@ -695,6 +695,23 @@ fn dump(tcx: TyCtxt<'_>) -> J {
                             let blocks: Vec<J> = body.basic_blocks.iter().map(|b| cx.block(b)).collect();
                             o.push(("locals", J::A(locals)));
                             o.push(("blocks", J::A(blocks)));
+                            // `const T: &[..] = &[..]`: the array itself lives in a promoted body of the const
+                            let proms = tcx.promoted_mir(did);
+                            let mut pbs = vec![];
+                            for (pi, pb) in proms.iter_enumerated() {
+                                let pcx = FnCx { tcx, body: pb, def: ldid };
+                                let mut plocals = vec![];
+                                for (l, d) in pb.local_decls.iter_enumerated() {
+                                    plocals.push(J::obj(vec![
+                                        ("i", J::I(l.as_usize() as i64)),
+                                        ("ty", J::S(ty_s(d.ty))),
+                                        ("span", span_j(tcx, d.source_info.span)),
+                                    ]));
+                                }
+                                let pblocks: Vec<J> = pb.basic_blocks.iter().map(|b| pcx.block(b)).collect();
+                                pbs.push(J::obj(vec![("i", J::I(pi.as_usize() as i64)), ("locals", J::A(plocals)), ("blocks", J::A(pblocks))]));
+                            }
+                            o.push(("promoted_bodies", J::A(pbs)));
                         }
                     }
                 }
